@@ -39,19 +39,46 @@ def installed():
         saved.append((obj, name, orig))
         setattr(obj, name, make(orig))
 
+    def _model_name(mm):
+        # the model FILE the semantics work with (shipped models do not all carry an arch_code)
+        path = getattr(mm, "_path", None)
+        return os.path.basename(str(path))[:-4].lower() if path and str(path).endswith(".yml") else "?"
+
+    def _pisa(parser):
+        return "aarch64" if isinstance(parser, ParserAArch64) else "x86" if isinstance(parser, ParserX86ATT) else "?"
+
     def mk_parse(orig):
         def parse_file(self, *a, **k):
-            res = orig(self, *a, **k)
-            _emit("parse", lines=[l.line_number for l in res])
+            try:
+                res = orig(self, *a, **k)
+            except Exception:
+                _emit("parsefail", isa=_pisa(self))
+                raise
+            _emit("parse", lines=[l.line_number for l in res], isa=_pisa(self))
             return res
         return parse_file
 
     def mk_reduce(orig):
         def reduce_to_section(kernel, isa):
             res = orig(kernel, isa)
-            _emit("select", mode="markers", kernel=[l.line_number for l in res])
+            _emit("select", mode="markers", kernel=[l.line_number for l in res], isa=str(isa).lower())
             return res
         return reduce_to_section
+
+    # the front door of `inspect`: ISA heuristics (only without --arch) and the choice of the parser
+    def mk_detect(orig):
+        def detect_ISA(file_content):
+            res = orig(file_content)
+            _emit("detect", isa=str(res).lower())
+            return res
+        return staticmethod(detect_ISA)
+
+    def mk_getparser(orig):
+        def get_asm_parser(arch):
+            res = orig(arch)
+            _emit("parser", arch=str(arch).lower(), isa=_pisa(res))
+            return res
+        return get_asm_parser
 
     def mk_range(orig):
         def get_line_range(s):
@@ -67,7 +94,8 @@ def installed():
                   tp=[units(l.throughput) for l in kernel], lat=[units(l.latency) for l in kernel],
                   latwo=[units(l.latency_wo_load if l.latency_wo_load is not None else l.latency) for l in kernel],
                   lds=[bool("performs_load" in l.flags and "is_load_instruction" not in l.flags) for l in kernel],
-                  ports=len(self._machine_model.get_ports()))
+                  ports=len(self._machine_model.get_ports()),
+                  arch=_model_name(self._machine_model), isa=str(self._machine_model.get_ISA()).lower())
             return res
         return add_semantics
 
@@ -119,13 +147,17 @@ def installed():
             s = res["Summary"]
             ports = res["Target"]["Ports"]
             _emit("dict", cp=units(s["CriticalPath"]), lcd=units(s["LCD"]),
-                  totals=[units(s["PortPressure"][p]) for p in ports], warnings=list(res["Warnings"]))
+                  totals=[units(s["PortPressure"][p]) for p in ports], warnings=list(res["Warnings"]),
+                  target=str(res["Target"]["Name"]).lower())
             return res
         return full_analysis_dict
 
     wrap(ParserX86ATT, "parse_file", mk_parse)
     wrap(ParserAArch64, "parse_file", mk_parse)
     wrap(oo, "reduce_to_section", mk_reduce)
+    saved.append((oo.BaseParser, "detect_ISA", oo.BaseParser.__dict__["detect_ISA"]))
+    setattr(oo.BaseParser, "detect_ISA", mk_detect(oo.BaseParser.detect_ISA))
+    wrap(oo, "get_asm_parser", mk_getparser)
     wrap(oo, "get_line_range", mk_range)
     wrap(ArchSemantics, "add_semantics", mk_sem)
     wrap(ArchSemantics, "assign_optimal_throughput", mk_bal)
